@@ -67,7 +67,8 @@ def gen_case(rng, tier, index):
         used = sorted({it["t"] for b in g.all_blocks for it in b["items"]
                        if it.get("t") in g.code_labels})
         a = rng.choice(used or g.code_labels)
-        b = rng.choice([x for x in g.code_labels if x != a])
+        b = rng.choice([x for x in g.callable_labels if x != a] or
+                       [x for x in g.code_labels if x != a])
         g.case["retargets"] = [[a, b]]
     return g.case
 
